@@ -827,15 +827,12 @@ package sam
 //@   requires forall(t, 0, len(recv(cSR)), len(recv(cSR)[t].records) >= 1)
 //@   requires forall(t, 0, len(recv(cSR)), forall(r, 0, len(recv(cSR)[t].records), recv(cSR)[t].records[r].Pos >= 0 && validCigar(recv(cSR)[t].records[r].Cigar) && recv(cSR)[t].records[r].Pos <= len(ref) && cigarFitsQ(recv(cSR)[t].records[r].Cigar, recv(cSR)[t].records[r].Seq.Length) && cigarFitsR(recv(cSR)[t].records[r].Cigar, recv(cSR)[t].records[r].Pos, len(ref))))
 //@   loop 1:
-//@     writes everything
 //@     invariant len(sent(cPair)) == range_i
 //@     invariant forall(t, 0, range_i, sent(cPair)[t].idx == recv(cSR)[t].idx && sent(cPair)[t].queryname == recv(cSR)[t].records[0].Name)
 //@   loop 2:
-//@     writes everything
 //@     invariant len(sent(cPair)) == range_i1 && len(seqs) == range_i && len(cigars) == range_i && len(positions) == range_i
 //@     invariant forall(k, 0, range_i, seqs[k].queryname == group.records[k].Name && len(seqs[k].ref) == len(seqs[k].query) && positions[k] == group.records[k].Pos && positions[k] >= 0)
 //@   loop 3:
-//@     writes everything
 //@     invariant len(sent(cPair)) == range_i1 && len(Q) == range_i
 //@   before call:getOneLinePlusRef#1: assert [c02.record.rows] arg(0) == line && sameslice(arg(1), ref) && arg(2) == true && !omitIns
 //@   before call:getOneLinePlusRef#2: assert [c02.record.rows.noins] arg(0) == line && sameslice(arg(1), ref) && arg(2) == false && omitIns
